@@ -266,7 +266,7 @@ func (sf *obfs4ServerFactory) WrapConn(conn net.Conn) (net.Conn, error) {
 		iatDist = probdist.New(sf.iatSeed, 0, maxIATDelay, *biasedDist)
 	}
 
-	c := &obfs4Conn{conn, true, lenDist, iatDist, sf.iatMode, bytes.NewBuffer(nil), bytes.NewBuffer(nil), make([]byte, consumeReadSize), nil, nil}
+	c := &obfs4Conn{conn, true, lenDist, iatDist, sf.iatMode, bytes.NewBuffer(nil), bytes.NewBuffer(nil), make([]byte, consumeReadSize), nil, nil, nil}
 
 	startTime := time.Now()
 
@@ -293,6 +293,10 @@ type obfs4Conn struct {
 
 	encoder *framing.Encoder
 	decoder *framing.Decoder
+
+	// readErr is a read error that was encountered while decoded payload was
+	// still pending, it is reported once that payload has been delivered.
+	readErr error
 }
 
 func newObfs4ClientConn(conn net.Conn, args *obfs4ClientArgs) (*obfs4Conn, error) {
@@ -316,7 +320,7 @@ func newObfs4ClientConn(conn net.Conn, args *obfs4ClientArgs) (*obfs4Conn, error
 	}
 
 	// Allocate the client structure.
-	c := &obfs4Conn{conn, false, lenDist, iatDist, args.iatMode, bytes.NewBuffer(nil), bytes.NewBuffer(nil), make([]byte, consumeReadSize), nil, nil}
+	c := &obfs4Conn{conn, false, lenDist, iatDist, args.iatMode, bytes.NewBuffer(nil), bytes.NewBuffer(nil), make([]byte, consumeReadSize), nil, nil, nil}
 
 	// Start the handshake timeout.
 	deadline := time.Now().Add(clientHandshakeTimeout)
@@ -467,6 +471,13 @@ func (conn *obfs4Conn) Read(b []byte) (int, error) {
 	// so do this in a loop till data is present or an error occurs.
 	var err error
 	for conn.receiveDecodedBuffer.Len() == 0 {
+		if conn.readErr != nil {
+			// All the payload that was decoded before the error occurred has
+			// been delivered, report the error (exactly once).
+			err, conn.readErr = conn.readErr, nil
+			return 0, err
+		}
+
 		err = conn.readPackets()
 		if errors.Is(err, framing.ErrAgain) {
 			// Don't proagate this back up the call stack if we happen to break
@@ -484,6 +495,15 @@ func (conn *obfs4Conn) Read(b []byte) (int, error) {
 	if conn.receiveDecodedBuffer.Len() > 0 {
 		var berr error
 		n, berr = conn.receiveDecodedBuffer.Read(b)
+		if err == nil {
+			err, conn.readErr = conn.readErr, nil
+		}
+		if err != nil && conn.receiveDecodedBuffer.Len() > 0 {
+			// The caller's buffer was too small for the decoded payload,
+			// callers that stop at the first error would lose the rest.
+			// Hold the error back till the payload is drained.
+			conn.readErr, err = err, nil
+		}
 		if err == nil {
 			// Only propagate berr if there are not more important (fatal)
 			// errors from the network/crypto/packet processing.
